@@ -4,7 +4,7 @@
    [List.rev rows]); flush receives the bars in pop order. *)
 From Coq Require Import Sorted.
 From Coq Require Import Permutation.
-From MPB Require Import Base BaseProofs BarState Container ContainerProofs PQueue PQueueProofs.
+From MPB Require Import Base BaseProofs BarState Container ContainerProofs PQueue PQueueProofs ContainerQueue.
 
 (* pops of a cycle whose heap was in order come in non-increasing priority:
    rows from top to bottom are in non-decreasing priority value *)
@@ -72,6 +72,16 @@ Theorem C06_fix_restores_order : forall q0 i p,
   length (arr (fix_at q i)) = length (arr q0).
 Proof. exact fix_ok. Qed.
 Print Assumptions C06_fix_restores_order.
+
+(* the two models agree: the pop the verified queue makes is one the container acceptor accepts (its HM_POP rule allows
+   any bar of greatest priority), and the queue keeps holding the acceptor's heap *)
+Theorem C06_queue_pop_is_accepted : forall s q b p q',
+  holds s q -> hp (arr q) (length (arr q)) -> iterating s = true -> ended s = false ->
+  pop q = Some ((b, p), q') ->
+  exists s', step s (HM_POP b p) = Some s' /\ Permutation (ids (arr q')) (heap s') /\
+             (forall b1 p1, In (b1, p1) (arr q') -> exists r, lookup b1 (bars s') = Some r /\ br_prio r = p1).
+Proof. exact pop_is_accepted. Qed.
+Print Assumptions C06_queue_pop_is_accepted.
 
 Example C06_nonvacuous_priority_change :
   exists s, run (init_cst false true false)
